@@ -6,8 +6,9 @@
         capacity is the run with unbounded stacks (same result, final state, output) and never ends in Throw.
         The argument is a counting one and needs no validity of the table: every shift consumes at least one byte,
         every reduce pops at least one entry before it pushes one.
-   The refutations (empty rules: finding D8; error recovery) and the bound for accepted inputs in the presence of
-   empty rules are in Proofs/CapFormulaCex.v and Proofs/CapFormulaTree.v. *)
+   Proofs/CapFormulaValid.v : the table hypotheses derived from the validator (validate_sound + no_error_symbol).
+   Proofs/CapFormulaTree.v  : (K4) with empty rules, a bound for accepted inputs read off the derivation tree.
+   Proofs/CapFormulaCex.v   : (K2) the refutations by computation (empty rules: finding D8; error recovery). *)
 Require Import Ctpg.Base.Prelude Ctpg.Model.Grammar Ctpg.Model.LRGen Ctpg.Model.Driver
                Ctpg.Spec.Cfg Ctpg.Spec.LRSpec Ctpg.Spec.Eval
                Ctpg.Proofs.DriverBasics Ctpg.Proofs.SafeBasics Ctpg.Proofs.SafeCap.
